@@ -104,6 +104,12 @@ impl Op {
         }
     }
 
+    /// `false` where the documentation says the precondition is the caller's responsibility and
+    /// is *not* enforced by constraints (then an accepted out-of-domain statement proves nothing)
+    pub fn domain_enforced(&self) -> bool {
+        !matches!(self, Op::MsmBounded(_))
+    }
+
     /// Reference semantics. `None` = the input is outside the documented domain of the operation
     /// (the circuit must then be unsatisfiable or synthesis must refuse).
     pub fn eval<V: Cv>(&self, ins: &[Val]) -> Option<Vec<Val>> {
@@ -141,7 +147,9 @@ impl Op {
                 // precondition of msm_by_bounded_scalars; the documentation says it is *not*
                 // enforced, so inputs violating it are never generated (harness bug otherwise)
                 for (s, bound) in sc.iter().zip(b) {
-                    assert!(s.bits() as usize <= *bound, "harness: bounded scalar out of its bound");
+                    if s.bits() as usize > *bound {
+                        return None;
+                    }
                 }
                 let ps: Vec<&RP> = ins[n..].iter().map(|v| v.p()).collect();
                 vec![Val::P(msm(&sc, &ps))]
@@ -429,6 +437,8 @@ pub enum Verdict {
     OutsideDomain,
     /// inputs valid, in domain, and some output differs from the reference result
     WrongOutput(String),
+    /// a caller-side precondition (documented as not enforced) does not hold: nothing to judge
+    Unjudged,
 }
 
 pub fn judge<V: Cv>(e: &Entry<V>, pi: &[F]) -> Verdict {
@@ -450,7 +460,7 @@ pub fn judge<V: Cv>(e: &Entry<V>, pi: &[F]) -> Verdict {
         }
     }
     let Some(exp) = e.op.eval::<V>(&ins) else {
-        return Verdict::OutsideDomain;
+        return if e.op.domain_enforced() { Verdict::OutsideDomain } else { Verdict::Unjudged };
     };
     for ((pos, got), want) in outs.iter().zip(exp.iter()) {
         match got {
